@@ -83,7 +83,7 @@ static Outcome runCase(const KV& c)
             }
         }
         catch (const std::exception&) {
-            o.cls("rejected_by_exception");
+            o.cls(c.getI("r" + std::to_string(k) + "_poison", 0) ? "rejected_round_then_reused" : "rejected_by_exception");
             haveSetup = false;
             continue;
         }
@@ -180,6 +180,30 @@ static KV genCase()
     s.via_cli    = rint(0, 1); // how the first configuration reaches the object (later changes go through the setters)
     const bool pattern = rint(0, 3) == 0; // the convergence_order loop: only divideBy2 changes
     for (int k = 0; k < rounds; k++) {
+        if (k > 0 && k + 1 < rounds && rint(0, 7) == 0) {
+            // a round that setup() must reject (an exception), on the same object; the following round uses valid options
+            // again and must behave like a fresh object: a rejected call leaves nothing behind
+            SolverCfg bad = s;
+            switch (rint(0, 2)) {
+            case 0:
+                bad.strategy   = 0;
+                bad.cache_geom = 0; // take needs both caches
+                break;
+            case 1:
+                bad.max_levels = 1; // fewer than two levels
+                break;
+            default:
+                bad.nr_exp = 1; // too coarse for two levels
+                bad.div    = 0;
+                bad.aniso  = 0;
+                break;
+            }
+            bad.put(c, "r" + std::to_string(k) + "_");
+            c.putI("r" + std::to_string(k) + "_setup", 1);
+            c.putI("r" + std::to_string(k) + "_solves", 0);
+            c.putI("r" + std::to_string(k) + "_poison", 1);
+            continue;
+        }
         if (k > 0 && !pattern && rint(0, 2) == 0) {
             // only options that solve() reads itself change (one to three of them), and setup() is NOT called again:
             // the next solve must behave like a fresh object that was given the new values before its setup()
